@@ -76,9 +76,10 @@ PROPS = {
         explanation=("Verified by Verus: is_special is exactly the 15-character meta set; push_quoted appends quote(s) (each meta-character preceded by one backslash, everything else verbatim) for every string; "
                      "lemma_unquote_quote: reading a quoted string back yields the original; lemma_quote_id: a string without meta-characters is its own quoting; "
                      "the byte-level helpers used when the escaped string is matched by the VM (codepoint_len, prev_codepoint_ix, matches_literal) are verified in U-UTF8."),
-        residual=("`escape` itself (iterator adapters: outside Verus' dialect) and 'Regex::new(escape(s)) finds the first literal occurrence, also embedded in fancy hosts' are decided only by the BOUNDED "
+        residual=("`escape` itself is verified too (U-QUOTE, rewrite R15): it borrows iff no character needs quoting, otherwise returns exactly quote(text). "
+                  "'Regex::new(escape(s)) finds the first literal occurrence, also embedded in fancy hosts' is decided only by the BOUNDED "
                   "family `quote` (all strings of length <= 3 over a 28-character alphabet incl. every meta-character and 2-4 byte characters, 5 host patterns, 7 texts) -- listed under coverage.bounded, never counted as proved."),
-        assumptions=[T_VSTD, T_ARITH, T_EXTRACT, "vstd's model of String::push / str::chars"],
+        assumptions=[T_VSTD, T_ARITH, T_EXTRACT, "vstd's model of String::push / str::chars", "T-scalar: scalars decoded from a str are <= 0x10FFFF", "T-capacity: String::with_capacity returns an empty string"],
         bounded_families=['quote'],
     ),
     'C06': dict(
